@@ -133,7 +133,10 @@ func (dsc *dataStoreCommand) dumpKey(l lane.Lane, keyName string) {
 	var _ = dsc.getSet
 	var _ = dsc.deleteSetMembers
 
-	sk, exists := dsc.getKeyObject(keyName)
+	dsc.lock()
+	defer dsc.unlock()
+
+	sk, exists := dsc.getKeyObjectUnlocked(keyName)
 	if !exists {
 		l.Tracef("key '%s' does not exist", keyName)
 	} else {
@@ -333,17 +336,25 @@ func (dsc *dataStoreCommand) getKeyUnlocked(keyName string) (val string, exists 
 }
 
 func (dsc *dataStoreCommand) getKeyBytes(keyName string) (val []byte, exists valueExists) {
-	sk, objExists := dsc.getKeyObject(keyName)
+	dsc.lock()
+	defer dsc.unlock()
+
+	sk, objExists := dsc.getKeyObjectUnlocked(keyName)
 	if !objExists {
 		exists = VALUE_DOESNT_EXIST
 		return
 	}
 
-	val = sk.getStringBytes()
-	if val == nil {
+	strBytes := sk.getStringBytes()
+	if strBytes == nil {
 		exists = VALUE_WRONG_TYPE
 		return
 	}
+
+	// the stored bytes can be modified in place by later commands; hand out
+	// a copy so the caller can use it after the lock is released
+	val = make([]byte, len(strBytes))
+	copy(val, strBytes)
 	return
 }
 
@@ -829,7 +840,10 @@ func simpleChecksum(data []byte) []byte {
 }
 
 func (dsc *dataStoreCommand) dump(keyName string) (output respValue) {
-	sk, exists := dsc.getKeyObject(keyName)
+	dsc.lock()
+	defer dsc.unlock()
+
+	sk, exists := dsc.getKeyObjectUnlocked(keyName)
 	if !exists {
 		return
 	}
@@ -945,7 +959,10 @@ func (dsc *dataStoreCommand) expire(keyName string, expiration time.Time, nx, xx
 }
 
 func (dsc *dataStoreCommand) expireTime(keyName string) (expiration time.Time, valid int) {
-	sk, exists := dsc.getKeyObject(keyName)
+	dsc.lock()
+	defer dsc.unlock()
+
+	sk, exists := dsc.getKeyObjectUnlocked(keyName)
 	if !exists {
 		valid = -2
 		return
@@ -959,7 +976,10 @@ func (dsc *dataStoreCommand) expireTime(keyName string) (expiration time.Time, v
 }
 
 func (dsc *dataStoreCommand) persist(keyName string) (output respValue) {
-	sk, exists := dsc.getKeyObject(keyName)
+	dsc.lock()
+	defer dsc.unlock()
+
+	sk, exists := dsc.getKeyObjectUnlocked(keyName)
 	if !exists || !sk.expiresAt.Before(maxTime) {
 		output.data = respInt(0)
 		return
@@ -1064,7 +1084,10 @@ func (dsc *dataStoreCommand) touch(keyName string) (exists bool) {
 }
 
 func (dsc *dataStoreCommand) getKeyType(keyName string) (keyType string) {
-	sk, exists := dsc.getKeyObject(keyName)
+	dsc.lock()
+	defer dsc.unlock()
+
+	sk, exists := dsc.getKeyObjectUnlocked(keyName)
 	if !exists {
 		return "none"
 	}
